@@ -140,6 +140,8 @@ func (e strmEvent) coq() string {
 		return coqlit.App("EvDT", b)
 	case "setdt":
 		return coqlit.App("EvSetDT", b)
+	case "panic":
+		return "EvPanic"
 	}
 	die("bad event kind %q", e.K)
 	return ""
@@ -208,8 +210,9 @@ type strmThread struct {
 	exited   chan struct{}
 	at       string     // yield point the thread is parked at
 	ev       *strmEvent // what the current release showed
-	inRF     bool       // inside ReadFrom
-	lastIn   []byte     // last chunk ReadFrom's reader handed out
+	panicked bool
+	inRF     bool   // inside ReadFrom
+	lastIn   []byte // last chunk ReadFrom's reader handed out
 	sc       *strmSched
 }
 
@@ -263,6 +266,15 @@ func (w strmWTWriter) Write(p []byte) (int, error) {
 
 func (t *strmThread) run() {
 	defer close(t.exited)
+	defer func() {
+		// a panic inside the code under test (not the Goexit used to stop parked threads)
+		if r := recover(); r != nil {
+			t.finished = true
+			t.panicked = true
+			t.ev = &strmEvent{K: "panic"}
+			t.sc.parked <- strmParkMsg{tid: t.id, finished: true}
+		}
+	}()
 	s := t.sc.s
 	for _, o := range t.prog {
 		t.park("begin")
@@ -320,7 +332,14 @@ func (t *strmThread) run() {
 }
 
 func strmSnapOf(s *streams.Stdin) (strmSnap, []byte) {
-	v := s.VerifSnapshot()
+	ch := make(chan streams.VerifState, 1)
+	go func() { ch <- s.VerifSnapshot() }()
+	var v streams.VerifState
+	select {
+	case v = <-ch:
+	case <-time.After(3 * time.Second):
+		return strmSnap{Len: -1}, nil // mutex left locked by a panic
+	}
 	return strmSnap{W: v.Written, R: v.Read, Len: len(v.Buffer), Deps: v.Dependents, Canc: v.Cancelled,
 		Max: v.Max, DT: strmHex(v.DataType)}, v.Buffer
 }
@@ -368,7 +387,7 @@ func strmRunCtl(c strmCtlCase) strmCtlObs {
 		}
 		sc.cur = nil
 	}
-	last := -1      // thread of the previous non-idle step
+	last := -1 // thread of the previous non-idle step
 	for _, i := range c.Sched {
 		var st strmStep
 		if i < 0 || i >= len(sc.threads) || sc.threads[i].finished {
@@ -400,7 +419,16 @@ func strmRunCtl(c strmCtlCase) strmCtlObs {
 			}
 		}
 		st.Sn, _ = strmSnapOf(s)
+		if st.Sn.Len < 0 {
+			st.Sn.Len = 0
+			obs.Steps = append(obs.Steps, st)
+			obs.Hang = true
+			break
+		}
 		obs.Steps = append(obs.Steps, st)
+	}
+	if obs.Hang {
+		return obs // state unusable: leave the remaining goroutines parked
 	}
 	_, buf := strmSnapOf(s)
 	obs.Buf = hex.EncodeToString(buf)
